@@ -45,3 +45,8 @@ chk("C16",
     "Per-goroutine tallies of Get calls / values returned / loader runs are compared with Stats() after concurrent mixed phases (1-32 goroutines, same-key bursts on fresh keys, short TTLs, Len and early-stopping Range mixed in), for plain and loading caches; after a quiet phase and Wait, Len, the full Range, early-stop Range, EstimatedSize and a Get of every key in the universe are cross-checked (cost encoded in the value).",
     "For loading caches a shared load and a hit cannot be told apart at the client boundary, so Hits is bounded (loads <= Misses, Hits <= gets that did not run the loader) while Hits+Misses == gets is exact.",
     "conservation check of counters against per-goroutine operation tallies + cross-view consistency at quiescent points")
+
+chk("C19",
+    "The Go race detector (which implies checkptr) is the oracle: dedicated hostile workloads without harness-side synchronisation on the operation path run all API operations (Get/Set/SetWithTTL/Delete/Range/Len/EstimatedSize/Stats/Wait/SaveCache, loader-backed Get, Close racing readers) with a removal listener on plain, loading, hybrid and hybrid-loading caches, tiny and large MaxSize, short TTLs, GOMAXPROCS 2/4/16, each run in its own process. Reports are parsed from the race log, de-duplicated by theine frame set; a report whose stacks contain only harness frames marks the check broken. Evidence lists which op-type pairs were observed overlapping in time.",
+    "A clean run is not a proof of race freedom: only interleavings that occurred are judged. Writers racing Close and concurrent Wait callers are exercised by C10/C20 instead (they block forever on the unrepaired tree).",
+    "Go race detector over hostile concurrent workloads, reports counted from the race log")
